@@ -108,4 +108,47 @@ theorem vfunc_cells_le_imbalance {cn cd n shards s l m V : Nat}
     _ ≤ cn * (101 * n) + 100 * cd * A := Nat.add_le_add_right h1 _
     _ = 101 * cn * n + 100 * cd * A := by ac_rfl
 
+/-- every input, with the builder's 1 % test:
+`cells ≤ 1.01 · c · n + shards · (3·2^s + 1)` -/
+theorem vfunc_cells_le_all_imbalance {cn cd n shards s l m V : Nat}
+    (H1 : shards * 100 * m ≤ 101 * n) (H2 : cd * V ≤ cn * m + cd) (H3 : l = vfuncL V s) :
+    100 * cd * vfuncCells l s shards ≤ 101 * cn * n + 100 * cd * (shards * (3 * 2 ^ s + 1)) := by
+  have h := vfunc_cells_le_all (shards := shards) H2 H3
+  generalize vfuncCells l s shards = C at *
+  generalize shards * (3 * 2 ^ s + 1) = A at *
+  have h1 : cn * (100 * (shards * m)) ≤ cn * (101 * n) :=
+    Nat.mul_le_mul_left _ (by rw [← Nat.mul_assoc, Nat.mul_comm 100]; exact H1)
+  calc 100 * cd * C = 100 * (cd * C) := Nat.mul_assoc _ _ _
+    _ ≤ 100 * (cn * (shards * m) + cd * A) := Nat.mul_le_mul_left _ h
+    _ = cn * (100 * (shards * m)) + 100 * cd * A := by rw [Nat.mul_add]; ac_rfl
+    _ ≤ cn * (101 * n) + 100 * cd * A := Nat.add_le_add_right h1 _
+    _ = 101 * cn * n + 100 * cd * A := by ac_rfl
+
+/-! ## MWHC logics: three segments of `seg` vertices, `V = max 1 ⌈1.23·m/3⌉ ≤ 0.41·m + 1` -/
+
+theorem mwhcSeg_le (V shards : Nat) : mwhcSeg V shards ≤ V + 127 := by
+  unfold mwhcSeg
+  split
+  · omega
+  · have := divCeil_mul_le V (by decide : 0 < 128); omega
+
+/-- `cells ≤ 1.23 · (shards·m) + shards · 3·128` (3 cells when there is one shard) -/
+theorem mwhc_cells_le {shards seg m V : Nat}
+    (H2 : 300 * V ≤ 123 * m + 300) (H3 : seg = mwhcSeg V shards) :
+    100 * mwhcCells seg shards ≤ 123 * (shards * m) + 100 * (shards * (3 * 128)) := by
+  unfold mwhcCells; subst H3
+  have h1 := mwhcSeg_le V shards
+  generalize mwhcSeg V shards = g at *
+  have h2 : 100 * (3 * g) ≤ 123 * m + 100 * (3 * 128) := by omega
+  calc 100 * (3 * g * shards) = shards * (100 * (3 * g)) := by ac_rfl
+    _ ≤ shards * (123 * m + 100 * (3 * 128)) := Nat.mul_le_mul_left _ h2
+    _ = 123 * (shards * m) + 100 * (shards * (3 * 128)) := by rw [Nat.mul_add]; ac_rfl
+
+theorem mwhc_cells_le_one {seg n V : Nat}
+    (H2 : 300 * V ≤ 123 * n + 300) (H3 : seg = mwhcSeg V 1) :
+    100 * mwhcCells seg 1 ≤ 123 * n + 100 * 3 := by
+  unfold mwhcCells mwhcSeg at *
+  simp only [if_true] at H3
+  subst H3; omega
+
 end Sux.Space
